@@ -202,7 +202,7 @@ std::string gen_int_literal(Rng &r, long *value_out)
 
 std::string gen_float_literal(Rng &r)
 {
-	static const char *lits[] = {"0.0", "1.5", "-2.25", "3", "1e3", "-0.125", "42.0", "6.02e23", "1e-5", ".5", "100.", "-7"};
+	static const char *lits[] = {"0.0", "1.5", "-2.25", "3", "1e3", "-0.125", "42.0", "6.02e23", "1e-5", ".5", "100.", "-7", "12345.678901", "-98765.4321", "0.000123"};
 	if (r.chance(1, 2))
 		return lits[r.below(sizeof(lits) / sizeof(lits[0]))];
 	char b[64];
@@ -688,8 +688,11 @@ static json typed_value(Rng &r, const std::string &t, bool hostile)
 {
 	if (t == "int")
 		return r.range(-1000, 1000);
-	if (t == "float")
+	if (t == "float") {
+		if (r.chance(1, 4)) // more significant digits than %g would keep, and large magnitudes
+			return (double)r.range(-99999999, 99999999) / 1024.0;
 		return (double)r.range(-800, 800) / 8.0;
+	}
 	if (t == "bool")
 		return r.chance(1, 2);
 	return to_json_bytes(gen_string_value(r, hostile, 8));
